@@ -4,7 +4,7 @@ import itertools
 
 from ..core import AnalysisError
 from ..cfront import strip, text
-from .. import ckern, xlayer, pyxread
+from .. import ckern, xlayer, pyxread, cq, pq, cnorm
 from ..ceval import CEval, find_all, loop_parts, body_stmts, loop_var, stores_to
 from ..formula import Canon, Ratio, Undecided, show, num
 from ..pyfront import Mod, dotted, const_value
@@ -24,15 +24,13 @@ EXPLANATION = (
 
 def step(fn, order, nan_in=False):
     """symbolic evaluation of one iteration of the time loop for a given AR order; returns (stored value, new buffer)"""
-    loop = [s for s in fn["body"]["inner"] if s.get("kind") == "ForStmt" and (stores_to(s, "outputs") or stores_to(s, "residuals"))]
-    if len(loop) != 1:
-        raise AnalysisError(f"{fn['file']}: {fn['name']} time loop not found")
-    loop = loop[0]
+    loop = time_loop(fn)
     iv = loop_var(loop)
     stm = body_stmts(loop_parts(loop)[3])
+    buf_name = lag_buffer(fn)
     env = {"sim_mean": ('sym', 'm'), "nparams": num(order)}
     for k in range(order):
-        env[f"prev_centered[{k}]"] = ('sym', f"p{k}")
+        env[f"{buf_name}[{k}]"] = ('sym', f"p{k}")
     inp = "innov" if fn["name"].endswith("sim") else "inputs"
     from ..ceval import _show as _idx
     arrays = {inp: lambda idx: ('sym', 'IN'), "params": lambda idx: ('sym', f"phi{_idx(idx)}")}
@@ -46,6 +44,12 @@ def step(fn, order, nan_in=False):
         if c[0] == 'not':
             r = oracle(c[1])
             return None if r is None else not r
+        if c[0] in ('and', 'or'):
+            from .c03 import _bool
+            return _bool(c, oracle)
+        if c[0] == 'cmp' and c[1] in ('!=', '==') and show(c[2]) == show(c[3]):
+            r = oracle(('call', 'isnan', (c[2],)))         # x != x spells isnan(x)
+            return None if r is None else (r if c[1] == '!=' else not r)
         if c[0] == 'cmp':
             cn = Canon()
             try:
@@ -98,8 +102,61 @@ def step(fn, order, nan_in=False):
     out = [e for e in ce.effects if e.arr in ("outputs", "residuals")]
     if len(out) != 1:
         raise Undecided(f"{len(out)} stores to the output in one step")
-    buf = [env.get(f"prev_centered[{k}]") for k in range(order)]
+    buf = [env.get(f"{buf_name}[{k}]") for k in range(order)]
     return out[0].val, buf
+
+
+def time_loop(fn):
+    loop = [s for s in body_stmts(fn["body"]) if s.get("kind") == "ForStmt" and (stores_to(s, "outputs") or stores_to(s, "residuals"))]
+    if len(loop) != 1:
+        raise AnalysisError(f"{fn['file']}: {fn['name']} time loop not found")
+    return loop[0]
+
+
+def lag_buffer(fn):
+    """the local array that carries the previous centred values"""
+    decl = [n for n in find_all(fn["body"], lambda n: n.get("kind") == "VarDecl") if "[" in n.get("type", {}).get("qualType", "") and
+            "double" in n["type"]["qualType"]]
+    if len(decl) != 1:
+        raise AnalysisError(f"{fn['file']}: {fn['name']}: lag buffer (one local double array) not found")
+    return decl[0]["name"]
+
+
+def prologue_summary(fn):
+    """validation part before the time loop: set of (error condition atoms, scan range) and the buffer initialisation"""
+    top = body_stmts(fn["body"])
+    loop = time_loop(fn)
+    pre = cq.preceding(top, loop)
+    ce = cq.evaluate(pre)
+    buf = lag_buffer(fn)
+    cn = Canon()
+    errs = set()
+    allret = [(r[0], r[1], ()) for r in ce.returns] + [(r[0], r[1], r[3]) for r in ce.loop_returns]
+    ranges = {}
+    for l in [x for x in pre if x.get("kind") == "ForStmt"]:
+        lr = cq.loop_range(l, cq.preceding(top, l))
+        if lr and lr["lo"] is not None and lr["hi"] is not None:
+            lo, hi = (lr["lo"], lr["hi"]) if lr["step"] == 1 else (lr["hi"], lr["lo"])
+            ranges[lr["var"]] = (repr(cn.ratio(lo)), repr(cn.ratio(hi)))
+    for val, conds, loops in allret:
+        if not isinstance(val, tuple) or cq.same_expr(val, "0"):
+            continue
+        last = conds[-1] if conds else None
+        if last is None:
+            continue
+        c, t = last
+        a = cq.cond_atoms(c, None, None, cn)
+        if not t:
+            a = cq._negate(a)
+        txt = repr(a)
+        for v in loops:
+            txt = txt.replace(v, "K")
+        errs.add((txt, tuple(ranges.get(v) for v in loops)))
+    init = []
+    for e in cq.stores(ce, buf):
+        v = e.loops[-1] if e.loops else None
+        init.append((repr(cn.ratio(e.idx)).replace(v or "\0", "K"), repr(cn.ratio(e.val)), ranges.get(v)))
+    return errs, sorted(init)
 
 
 def run(rep):
@@ -108,14 +165,14 @@ def run(rep):
     rep.rule("R17.c", "same validation prologue in both kernels (order bounds, NaN parameters, NaN mean / initial value), same initial buffer ini - mean; wrappers agree and raise")
     rep.rule("R17.d", "missing innovations act as zero; missing inputs are replaced by the AR prediction (zero residual)")
     K = ckern.analyze(rep.repo)
-    fs, fr = K["fns"].get("c_armodel_sim"), K["fns"].get("c_armodel_residual")
-    if fs is None or fr is None:
+    if K["fns"].get("c_armodel_sim") is None or K["fns"].get("c_armodel_residual") is None:
         raise AnalysisError("stat/c_armodels.c: kernels not found")
+    fs, fr = ckern.normalised(K, "c_armodel_sim", rep.repo), ckern.normalised(K, "c_armodel_residual", rep.repo)
     file = fs["file"]
     rep.unit(f"{file}: c_armodel_sim, c_armodel_residual; stat/armodels.py: armodel_sim, armodel_residual")
     cn = Canon()
     nid = 0
-    for order in (1, 2, 3, 4):
+    for order in range(1, 11):          # every order the kernels accept (1 .. ARMODEL_NPARAMSMAX): exhaustive
         try:
             vs, bs = step(fs, order)
             vr, br = step(fr, order)
@@ -145,15 +202,7 @@ def run(rep):
         comp = (y - Ratio.sym("m")) - ar
         rep.check(comp == E and okbs and okbr and (want_s - Ratio.sym("m")) == (y - Ratio.sym("m")), "R17.b", file, "c_armodel_*",
                   f"order {order}: residual(sim(e)) = e and both kernels leave the same lag buffer", f"residual of the simulated value: {comp}", line=fs["line"])
-    rep.floor("AR orders evaluated", nid, 4)
-    # loop skeleton at any order: lag loop bounds
-    for fn in (fs, fr):
-        loop = [s for s in fn["body"]["inner"] if s.get("kind") == "ForStmt" and (stores_to(s, "outputs") or stores_to(s, "residuals"))][0]
-        lag = [l for l in find_all(loop, lambda n: n.get("kind") == "ForStmt" and n is not loop) if stores_to(l, "prev_centered")]
-        ok = len(lag) == 1 and text(loop_parts(lag[0])[0]).replace(" ", "") == "k=nparams-1" and text(loop_parts(lag[0])[1]).replace(" ", "") == "k>=0" and \
-            text(loop_parts(lag[0])[2]).replace(" ", "") == "k--"
-        rep.check(ok, "R17.a", file, fn["name"], "lag loop runs from the highest lag down to 0 for any order (no entry is overwritten before it is shifted)",
-                  f"for({text(loop_parts(lag[0])[0])};{text(loop_parts(lag[0])[1])};{text(loop_parts(lag[0])[2])})" if lag else "not found", line=loop.get("_line"))
+    rep.floor("AR orders evaluated", nid, 10)
     # R17.d NaN handling
     try:
         vs_nan, _ = step(fs, 2, nan_in=True)
@@ -166,23 +215,24 @@ def run(rep):
     except Undecided as ex:
         rep.undecided("R17.d", file, "c_armodel_*", "NaN step", str(ex), line=fs["line"])
     # R17.c prologue agreement
-    def prologue(fn):
-        out = []
-        for s in fn["body"]["inner"]:
-            if s.get("kind") == "ForStmt" and (stores_to(s, "outputs") or stores_to(s, "residuals")):
-                break
-            if s.get("kind") in ("IfStmt", "ForStmt"):
-                t = text(s).replace(" ", "") if False else _norm_stmt(s)
-                out.append(t)
-        return out
-    ps, pr = prologue(fs), prologue(fr)
-    rep.check(ps == pr, "R17.c", file, "c_armodel_residual", "validation prologue and buffer initialisation identical to c_armodel_sim", f"sim: {ps} ; residual: {pr}", line=fr["line"])
-    need = ["nparams>ARMODEL_NPARAMSMAX||nparams<=0", "isnan(params[k])", "isnan(sim_mean)", "isnan(sim_ini)", "prev_centered[k]=sim_ini-sim_mean"]
-    flat = " ".join(ps).replace("(", "").replace(")", "").replace("__builtin_", "")
-    for nd in need:
-        rep.check(nd.replace("(", "").replace(")", "").replace("ARMODEL_NPARAMSMAX", "10") in flat.replace("ARMODEL_NPARAMSMAX", "10"), "R17.c", file, "c_armodel_sim", f"prologue contains `{nd}`", flat[:200], line=fs["line"])
-    decl = find_all(fs["body"], lambda n: n.get("kind") == "VarDecl" and n.get("name") == "prev_centered")
-    rep.check(bool(decl) and decl[0]["type"]["qualType"].replace(" ", "") == "double[10]", "R17.c", file, "c_armodel_sim", "lag buffer holds ARMODEL_NPARAMSMAX = 10 entries, the maximum accepted order", "", line=fs["line"])
+    es, inis = prologue_summary(fs)
+    er, inir = prologue_summary(fr)
+    rep.check(es == er and inis == inir, "R17.c", file, "c_armodel_residual", "validation prologue and buffer initialisation identical to c_armodel_sim",
+              f"sim: {sorted(es)} {inis} ; residual: {sorted(er)} {inir}"[:400], line=fr["line"])
+    cnp = Canon()
+    want_err = {"order": cq.cond_atoms("nparams > 10 || nparams <= 0", True, None, cnp)}
+    txts = {t for t, _r in es}
+    rep.check(repr(want_err["order"]) in txts, "R17.c", file, "c_armodel_sim", "order outside 1..10 is rejected", str(sorted(txts))[:200], line=fs["line"])
+    rep.check(any(t.startswith("('isnan'") and "params" in t and r == (("0", "-1 + nparams"),) for t, r in es), "R17.c", file, "c_armodel_sim",
+              "a NaN coefficient among params[0..nparams-1] is rejected", str(sorted(es))[:300], line=fs["line"])
+    for nm in ("sim_mean", "sim_ini"):
+        rep.check(any(t == repr(('isnan', nm)) and r == () for t, r in es), "R17.c", file, "c_armodel_sim", f"a NaN {nm} is rejected", str(sorted(txts))[:200], line=fs["line"])
+    rep.check(len(inis) == 1 and inis[0][0] == "K" and inis[0][1] == repr(cnp.ratio(cq.parse("sim_ini - sim_mean"))) and inis[0][2] == ("0", "-1 + nparams"), "R17.c", file, "c_armodel_sim",
+              "lag buffer starts at sim_ini - sim_mean for lags 0..nparams-1", str(inis), line=fs["line"])
+    decl = [n for n in find_all(fs["body"], lambda n: n.get("kind") == "VarDecl" and n.get("name") == lag_buffer(fs))]
+    import re as _re
+    m_ = _re.search(r"\[(\d+)\]", decl[0]["type"]["qualType"]) if decl else None
+    rep.check(bool(m_) and int(m_.group(1)) >= 10, "R17.c", file, "c_armodel_sim", "lag buffer holds at least 10 entries, the maximum accepted order", decl[0]["type"]["qualType"] if decl else "", line=fs["line"])
     # wrappers
     P = pyxread.load_all(rep.repo)
     shims = {cm: {sh.name: sh for sh in d["shims"]} for cm, d in P.items()}
@@ -195,13 +245,29 @@ def run(rep):
             raise AnalysisError(f"stat/armodels.py: call site of {nm} not found")
         ok, how, _ = xlayer.error_discipline(st[0])
         rep.check(ok and how == "!=0", "R17.c", "stat/armodels.py", nm, "kernel error code (any non-zero value) raises", how, line=st[0].call.lineno)
-        names = [ast.unparse(a) for a in st[0].call.args]
-        rep.check(names[:3] == ["sim_mean", "sim_ini", "params"] and names[3] == data_arg, "R17.c", "stat/armodels.py", nm, "mean, initial value, coefficients and series passed in the kernel's order", str(names), line=st[0].call.lineno)
         f = st[0].func
-        ini = [n for n in f.body if isinstance(n, ast.If) and ast.unparse(n.test).replace(" ", "") == "sim_iniisNone"]
-        okini = bool(ini) and ast.unparse(ini[0].body[0]).replace(" ", "") == "sim_ini=sim_mean" and ast.unparse(ini[0].orelse[0]).replace(" ", "") == "sim_ini=np.float64(sim_ini)"
+        pargs = pq.call_arguments(f, st[0].call, list(st[0].shim.params))
+        plist = list(st[0].shim.params)
+        okorder = plist[:4] == ["sim_mean", "sim_ini", "params", data_arg] or plist[:4] == ["sim_mean", "sim_ini", "params", plist[3]]
+        okm = "sim_mean" in pargs and all(pq.same(v, "sim_mean") or any(t and pq.same(c, "sim_mean is None") for c, t in cnds)
+                                          for cnds, v in pq.split_where(pargs["sim_mean"]))
+        okp = "params" in pargs and pq.mentions(pargs["params"], lambda e: e == ('sym', 'params')) and \
+            plist[3] in pargs and pq.mentions(pargs[plist[3]], lambda e: e == ('sym', data_arg))
+        rep.check(okorder and okm and okp, "R17.c", "stat/armodels.py", nm, "mean, initial value, coefficients and series passed in the kernel's order",
+                  str({k_: show(v)[:40] for k_, v in pargs.items()})[:300], line=st[0].call.lineno)
+        okini = "sim_ini" in pargs and "sim_mean" in pargs
+        if okini:
+            for cnds, tup in pq.split_where(('tuple', (pargs["sim_mean"], pargs["sim_ini"]))):
+                mean_v, ini_v = tup[1]
+                isnone = [t for c, t in cnds if pq.same(c, "sim_ini is None")]
+                if isnone and isnone[0]:
+                    okini = okini and pq.same(ini_v, mean_v)
+                elif isnone:
+                    okini = okini and pq.same(ini_v, "sim_ini")
+                else:
+                    okini = False
         rep.check(okini, "R17.c", "stat/armodels.py", nm, "initial value defaults to the mean only when it is None (0 is a legitimate initial value)",
-                  ast.unparse(ini[0])[:80] if ini else "sim_ini defaulting not found", line=f.lineno)
+                  show(pargs.get("sim_ini", num(0)))[:120], line=f.lineno)
         bodies[nm] = f
     return EXPLANATION
 
